@@ -400,11 +400,24 @@ func c06Record(args []string) error {
 		// for them (a collection in between would hide what reusing them does)
 		defer debug.SetGCPercent(debug.SetGCPercent(-1))
 		shapes := [][2][]string{{{"Offer"}, {"Poll"}}, {{"Push"}, {"Pop"}}, {{"Offer", "Unshift"}, {"Shift", "Pop"}}, {{"Put", "Offer"}, {"Take", "Poll", "Peek"}}}
-		for _, sh := range shapes {
+		// --deep N: two more histories (queue ends, mixed ends) with N pending items - beyond caps in the tens of thousands that a
+		// node pool / free list might have - filled and drained twice
+		deep := flagInt(args, "deep", 0)
+		if deep > 0 {
+			shapes = append(shapes, shapes[0])
+			if flagInt(args, "deepmixed", 0) == 1 { // (judging costs time quadratic in the number of pending items: the mixed-ends history only in the thorough tier)
+				shapes = append(shapes, shapes[2])
+			}
+		}
+		for si, sh := range shapes {
 			q := fpgo.NewLinkedListQueue[int]()
 			var bpath []llqEvent
 			d := 0
 			stop := false
+			n, rounds := n, rounds
+			if si >= 4 {
+				n, rounds = deep, 2
+			}
 			for r := 0; r < rounds && !stop; r++ {
 				for phase := 0; phase < 2 && !stop; phase++ {
 					k := n
